@@ -255,6 +255,45 @@ def run(chk):
     chk.ob("O19.5", "last `sort` key located by text search", not rf, rf[0] if rf else gl, "rfind('\"sort\"') on the raw text picks the textually last occurrence at any nesting depth (or inside a string)",
            key=f"{_R}:SearchAfterExtractor._get_last_sort:rfind-sort-key")
 
+    # ---- O19.6 cursor threading ---------------------------------------------------------------------------------------------------------------------------------
+    chk.rule("O19.6", "paginated search: the cursor sent with the next page is the extractor's result for the response just received (search_after := last sort; composite after := after_key), "
+             "pages == weight == number of requests issued; hit totals are taken from the first page only", 6,
+             "a page is fetched twice / skipped because a stale cursor (or the previous page's) is sent")
+    Q = rn.cls("Query")
+    qcall = rn.methods(Q).get("__call__")
+    if qcall is None:
+        raise AnchorMissing("Query.__call__")
+    inner = {n.name: n for n in ast.walk(qcall) if isinstance(n, (ast.AsyncFunctionDef, ast.FunctionDef))}
+    for fname, extractor, cursor_key, cur_src in (("_search_after_query", "_search_after_extractor", "search_after", "last_sort"), ("_composite_agg", "_composite_agg_extractor", "after", "after_key")):
+        f = inner.get(fname)
+        if f is None:
+            raise AnchorMissing(f"Query.{fname}")
+        gq = cfg_of(f)
+        lp = [n for n in walk_body(f) if isinstance(n, ast.For) and isinstance(n.iter, ast.Call) and dotted(n.iter.func) == "range"]
+        if not lp:
+            raise AnchorMissing(f"page loop in {fname}")
+        PL_ = lp[0]
+        rq = [n for n in ast.walk(PL_) if isinstance(n, ast.Await) and isinstance(n.value, ast.Call) and u(n.value.func) == "self._raw_search"]
+        ex_ = [n for n in ast.walk(PL_) if isinstance(n, ast.Call) and u(n.func) == f"self.{extractor}"]
+        ok = len(rq) == 1 and len(ex_) == 1
+        resp = u(source.enclosing_stmt(rq[0]).targets[0]) if ok and isinstance(source.enclosing_stmt(rq[0]), ast.Assign) else None
+        ok = ok and resp is not None and u(ex_[0].args[0]) == resp and gq.dominated_by_nodes(gq.node_of(ex_[0]), [gq.node_of(rq[0])]) and not gq.path_exists(gq.node_of(ex_[0]), gq.node_of(rq[0]), avoid=[gq.node_of(PL_)])
+        chk.ob("O19.6", f"{fname}: one request per page, its own response handed to the extractor", ok, ex_[0] if ex_ else PL_, "")
+        st = [n for n in ast.walk(PL_) if isinstance(n, ast.Assign) and isinstance(n.targets[0], ast.Subscript) and source.is_const(n.targets[0].slice, cursor_key)]
+        ok = len(st) == 1 and u(st[0].value) == cur_src
+        if ok:
+            # the cursor variable is bound from the extractor's result of this iteration
+            binds = [n for n in ast.walk(PL_) if isinstance(n, ast.Assign) and any(isinstance(x, ast.Name) and x.id == cur_src and isinstance(x.ctx, ast.Store) for t in n.targets for x in ast.walk(t))]
+            ok = len(binds) == 1 and (binds[0].value is ex_[0] or u(binds[0].value) == "parsed['after_key']") and gq.dominated_by_nodes(gq.node_of(st[0]), [gq.node_of(binds[0])])
+        chk.ob("O19.6", f"{fname}: next cursor := the extractor's result for this page", ok, st[0] if st else PL_, short(st[0], 70) if st else "cursor never set")
+        pg = {u(n.targets[0].slice): u(n.value) for n in ast.walk(PL_) if isinstance(n, ast.Assign) and isinstance(n.targets[0], ast.Subscript) and u(n.targets[0].value) == "results" and isinstance(n.targets[0].slice, ast.Constant)}
+        iv = PL_.target.id
+        ok = pg.get("'pages'") == iv and pg.get("'weight'") == iv and u(PL_.iter.args[0]) == "1"
+        chk.ob("O19.6", f"{fname}: pages == weight == requests issued", ok, PL_, f"{ {k: v for k, v in pg.items() if k in (chr(39)+'pages'+chr(39), chr(39)+'weight'+chr(39))} }")
+        hs = [n for n in ast.walk(PL_) if isinstance(n, ast.Assign) and isinstance(n.targets[0], ast.Subscript) and source.is_const(n.targets[0].slice, "hits")]
+        ok = len(hs) == 1 and any(pol and u(t) == "results.get('hits') is None" for t, pol in guards(hs[0], stop=PL_))
+        chk.ob("O19.6", f"{fname}: hit total taken from the first page only", ok, hs[0] if hs else PL_, "")
+
     # ---- O19.3 selective parser ------------------------------------------------------------------------------------------------------------------------------
     chk.rule("O19.3", "the selective parser matches requested properties / lists / objects on the full ijson prefix; member keys of a collected object are the prefix with the object's own path "
              "stripped; early exit only when all requested properties, lists and objects were seen; an incomplete document ends the scan silently", 7,
@@ -322,6 +361,8 @@ VARIANTS = [
     V("seed m3: member key by last dot", "break", _R, "                current_object[prefix[len(in_object) + 1 :]] = value", "                current_object[prefix.split(\".\")[-1]] = value", "O19.3"),
     V("match on value instead of prefix", "break", _R, "            if prefix in props:\n                parsed[prefix] = value", "            if event == \"map_key\" and value in props:\n                parsed[value] = value", "O19.3"),
     V("early exit on properties only", "break", _R, "                len(parsed) == len(props)\n                and (lists is None or len(parsed_lists) == len(lists))\n                and (objects is None or len(parsed_objects) == len(objects))", "                len(parsed) == len(props)", "O19.3"),
+    V("cursor from the request body instead of the response", "break", _R, "                    body[\"search_after\"] = last_sort", "                    body[\"search_after\"] = body.get(\"search_after\", last_sort)", "O19.6"),
+    V("composite after key from the previous page", "break", _R, "                after_key = parsed[\"after_key\"]\n                if isinstance(after_key, dict):", "                after_key = composite_agg_body.get(\"after\") or parsed[\"after_key\"]\n                if isinstance(after_key, dict):", "O19.6"),
     # preserving
     V("predicate extracted into a local", "keep", _R, "                if data[\"status\"] > 299 or (\"_shards\" in data and data[\"_shards\"][\"failed\"] > 0):\n                    bulk_error_count += 1\n                    self.extract_error_details(error_details, data)\n                else:\n                    bulk_success_count += 1\n        stats = {\n            \"took\": props.get(\"took\"),",
       "                failed = data[\"status\"] > 299 or (\"_shards\" in data and data[\"_shards\"][\"failed\"] > 0)\n                if failed:\n                    bulk_error_count += 1\n                    self.extract_error_details(error_details, data)\n                else:\n                    bulk_success_count += 1\n        stats = {\n            \"took\": props.get(\"took\"),"),
